@@ -402,9 +402,10 @@ def read_mapping_loop(chk, rule: str):
                 chk.check(d is not None and src(d) == "_raw_from(self.map_array[0])", rule, f"{PB}:PdoMap.read | count source", read.loc(lp),
                           f"{cnt_name} = {src(d) if d is not None else '?'}; expected _raw_from(self.map_array[0])")
             lv = src(lp.target)
-            vals = [n for n in own_nodes(lp) if isinstance(n, ast.Assign) and src(n.targets[0]) == "value"]
+            # the local that holds the mapping word (whatever it is called)
+            vals = [n for n in own_nodes(lp) if isinstance(n, ast.Assign) and isinstance(n.targets[0], ast.Name) and isinstance(n.value, ast.Call) and dotted(n.value.func) == "_raw_from"]
             chk.check(len(vals) == 1 and src(vals[0].value) == f"_raw_from(self.map_array[{lv}])" and vals[0] is lp.body[0], rule,
-                      f"{PB}:PdoMap.read | entry source", read.loc(lp), f"value = {[src(v.value) for v in vals]}; expected _raw_from(self.map_array[{lv}]) as the first statement of the loop")
+                      f"{PB}:PdoMap.read | entry source", read.loc(lp), f"mapping word = {[src(v.value) for v in vals]}; expected _raw_from(self.map_array[{lv}]) as the first statement of the loop")
 
 
 
@@ -619,3 +620,58 @@ def pdo_subscribe(chk, rule: str):
     for c in find_calls(sub.node, ".unsubscribe"):
         chk.check(len(c.args) >= 2, rule, f"{PB}:PdoMap.subscribe | removes at most its own handler", sub.loc(c),
                   f"`{src(c)[:60]}` without a callback removes every subscriber of that COB-ID, also the maps of other nodes that listen to it")
+
+
+def cob_id_fields(chk, rule: str):
+    """PdoMap.read(): identifier, enabled and rtr_allowed are the three fields of the COB-ID word read from sub-index 1 -- decided
+    by forward substitution through the straight-line statements after that read and evaluation for probe words (a local that is
+    masked in between is seen as masked)."""
+    repo, folder = ctx(chk)
+    from .c05 import _forward as _fwd
+    from .common import substitute_src as _ssrc, attr_stores
+    from ..fold import Unfoldable as _Unf
+    read = repo.func(PB, "PdoMap.read", f"{chk.prop}.{rule}")
+    fsc = Scope(read.mod, read.cls)
+    top = [st for st in read.node.body if not isinstance(st, (ast.FunctionDef, ast.ClassDef))]
+    straight = []
+    for st in top:
+        if isinstance(st, (ast.Assign, ast.AugAssign)):
+            straight.append(st)
+        elif straight:
+            break
+    RAW = "_raw_from(self.com_record[1])"
+    env_names, stores_seen = {}, {}
+    for st in straight:
+        if isinstance(st, ast.Assign) and len(st.targets) == 1 and dotted(st.targets[0]) in ("self.cob_id", "self.enabled", "self.rtr_allowed"):
+            e_, _o = _fwd([ast.Assign(targets=[ast.Name(id="__v", ctx=ast.Store())], value=st.value)], env_names)
+            stores_seen[dotted(st.targets[0])[5:]] = (e_["__v"], st)
+        else:
+            env_names, _o = _fwd([st], env_names)
+    probes = (0x00000181, 0x40000181, 0x80000181, 0xC0000181, 0x000007FF, 0x9FFFFFFF, 0x5FFFFFFF, 0x00000000)
+    for attr, want in (("cob_id", lambda w: w & 0x1FFFFFFF), ("enabled", lambda w: not w & (1 << 31)), ("rtr_allowed", lambda w: not w & (1 << 30))):
+        chk.floor(rule, len(attr_stores(read.node, attr)), 1, f"store of {attr} in read")
+        if attr not in stores_seen:
+            chk.unk(rule, f"{PB}:PdoMap.read | {attr}", read.loc(), f"self.{attr} is not set by the straight-line statements after the read of sub-index 1")
+            continue
+        e_, st = stores_seen[attr]
+        if RAW not in src(e_):
+            chk.bad(rule, f"{PB}:PdoMap.read | {attr}", read.loc(st), f"self.{attr} = {src(e_)} is not computed from {RAW}")
+            continue
+        wrong = None
+        for w in probes:
+            try:
+                v = folder.fold(_ssrc(e_, {RAW: w}), fsc)
+            except _Unf as ex_:
+                wrong = ("unknown", str(ex_))
+                break
+            if attr == "cob_id":
+                bad_v = v != want(w)
+            else:
+                bad_v = not isinstance(v, bool) or v != bool(want(w))
+            if bad_v:
+                wrong = ("bad", f"for the COB-ID word {w:#010x} self.{attr} becomes {v!r}; expected {want(w)!r} (computed as {src(e_)})")
+                break
+        if wrong and wrong[0] == "unknown":
+            chk.unk(rule, f"{PB}:PdoMap.read | {attr}", read.loc(st), f"`{src(e_)}` does not evaluate: {wrong[1]}")
+        else:
+            chk.check(wrong is None, rule, f"{PB}:PdoMap.read | {attr}", read.loc(st), wrong[1] if wrong else "", f"evaluated for {len(probes)} COB-ID words")
